@@ -4,6 +4,7 @@
   every case and reports the finding id when one holds.   Core only.
 -/
 import Nervus.Model.Eval
+import Nervus.Spec.CypherValue
 namespace Nervus.Spec
 open Nervus Nervus.Eval Value
 
@@ -22,10 +23,36 @@ where
     | [] => []
     | (_, x) :: xs => stringsOf x ++ stringsOfMap xs
 
-/-- C23-temporal-string-compare (negated): on these strings the engine's string comparison is the text
-    order, i.e. no two of them are compared as temporal values with a different outcome. -/
-def textCoherent (E : Env) (ss : List Str) : Bool :=
-  ss.all fun s => ss.all fun t => strCmp E s t == cmpBytes s t
+/-- the Spec's order on strings: two strings that denote temporal values of the SAME kind (the model parameter
+    `temporalKey`: what the engine's temporal parser makes of a string) are ordered chronologically — by their
+    keys —, every other pair as text.  (This is what `compare_strings_with_temporal` must compute for EVERY pair.) -/
+def strOrder (E : Env) (x y : Str) : Ordering :=
+  match E.temporalKey x, E.temporalKey y with
+  | some (k, a), some (k', b) => if k = k' then TKey.cmp a b else cmpBytes x y
+  | _, _ => cmpBytes x y
+
+/-- C23-temporal-string-compare (negated), part 1: on these strings "ordered equal" coincides with `=` (text
+    equality) — fails exactly for two different spellings of one temporal value, e.g. '2020-W01-1' and
+    '2019-12-30'.  Same-kind temporal strings with different keys are fine. -/
+def strEqOK (E : Env) (ss : List Str) : Bool :=
+  ss.all fun s => ss.all fun t => (strCmp E s t == .eq) == (s == t)
+
+/-- what the Spec says about the ORDER BY / min / max order of two values without looking at the code: `null`
+    after everything, values of different kinds by the orderability of kinds, numbers as the rationals they denote
+    (NaN last), booleans, strings by `strOrder`; no opinion (`none`) on two lists / maps / graph values. -/
+def orderOpinion (E : Env) (a b : Value) : Option Ordering :=
+  match a, b with
+  | .null, .null => some .eq
+  | .null, _ => some .gt
+  | _, .null => some .lt
+  | a, b =>
+    if typeRank a < typeRank b then some .lt else if typeRank b < typeRank a then some .gt else
+    match numOrder a b with
+    | some o => some o
+    | none => match a, b with
+      | .bool x, .bool y => some (cmpBool x y)
+      | .str x, .str y => some (strOrder E x y)
+      | _, _ => none
 
 /-- the transitivity law of a three-way comparison, in functional form: two steps that are not `gt`
     compose to `o1.then o2` -/
@@ -34,7 +61,9 @@ def transAt (cmp : Str → Str → Ordering) (a b c : Str) : Bool :=
   let o2 := cmp b c
   o1 == .gt || o2 == .gt || cmp a c == o1.then o2
 
-/-- C20-temporal-string-order (negated): the engine's string comparison is transitive on these strings
+/-- C20-temporal-string-order / C23-temporal-string-compare part 2 (negated): the engine's string comparison is
+    transitive on these strings — fails only for mixes where some pairs are compared as temporal values of one kind
+    and others as text (cross-kind / temporal-vs-text cycles); any set of same-kind temporal strings is fine
     (antisymmetry `cmp a b = (cmp b a).swap` holds for every string, see `Proofs`). -/
 def strTransOn (E : Env) (ss : List Str) : Bool :=
   ss.all fun a => ss.all fun b => ss.all fun c => transAt (strCmp E) a b c
